@@ -3,10 +3,10 @@ package main
 // C02 — DNS engine answer equals the reference resolution over all rules.
 
 import (
-	"os"
 	"fmt"
 	"go/constant"
 	"go/types"
+	"os"
 	"sort"
 	"strings"
 
@@ -20,7 +20,7 @@ func init() {
 		Explanation: "Static decision of the structural clauses of C02. R1: every host rule the DNS host table returns is re-validated by HostRule.Match(rule, hostname) with the very string that was hashed. " +
 			"R2: addRule keys every name of a host rule (complete unconditional loop, key FastHash(name), value the storage index). R3: the constructor sends every *HostRule to the host table and a *NetworkRule to the network engine exactly when " +
 			"IsHostLevelNetworkRule() holds. R4: the decision table of MatchRequest (extracted from SSA) equals the statement: empty hostname => nothing; NetworkRules = unfiltered MatchAll of the pooled request; a basic rule wins and the host table is not consulted; " +
-			"otherwise matched = host lookup flag; IPv4 rules go to HostRulesV4 on the true edge of Is4, all others to HostRulesV6. R5: the lookup flag is len(result) > 0. R6: the rule selection does not write through its argument (NetworkRules stays the unfiltered list). R9: IsHostLevelNetworkRule, evaluated on no option, every single option and every pair of options, is host-level exactly when enabledOptions &^ OptionHostLevelRulesOnly == 0 (the other conjuncts as with no option). A probe that files the host rules into the result it is handed (matchLookupTable(hostname, res) bool) is accepted as a second division of the work: the flag must be the loop-carried 'filed something', the family split, re-validation and bucket scan are judged in the probe, and the result handed over must be the fresh one the query returns. R10 imports the pattern-constant table (C03.R9): a ||domain^ rule covers every sub-domain label a DNS name can have. Roles pass to successor helpers when the vocabulary function is gone (fillHostRules for matchLookupTable, hostIndex.add for addRule).",
+			"otherwise matched = host lookup flag; IPv4 rules go to HostRulesV4 on the true edge of Is4, all others to HostRulesV6. R5: the lookup flag is len(result) > 0. R6: the rule selection does not write through its argument (NetworkRules stays the unfiltered list). R9: IsHostLevelNetworkRule, evaluated on no option, every single option and every pair of options, is host-level exactly when enabledOptions &^ OptionHostLevelRulesOnly == 0 (the other conjuncts as with no option). A probe that files the host rules into the result it is handed (matchLookupTable(hostname, res) bool) is accepted as a second division of the work: the flag must be the loop-carried 'filed something', the family split, re-validation and bucket scan are judged in the probe, and the result handed over must be the fresh one the query returns. R10 imports the pattern-constant table (C03.R9): a ||domain^ rule covers every sub-domain label a DNS name can have. Roles pass to successor helpers when the vocabulary function is gone (fillHostRules for matchLookupTable, hostIndex.add for addRule). R13 imports C04.R6 ($denyallow address exemption), R14 imports C12.R7 (whole lines); the routing calls of R3 are looked for in helper activations too.",
 		Trusted: []string{"which modifiers make a rule browser-only is a product decision (the set of options in OptionHostLevelRulesOnly is not judged, only that the predicate is the subset test against it)", "C01, C06, C07, C18 decide the pieces this composes"},
 	})
 }
@@ -47,7 +47,7 @@ func runC02(c *Ctx) {
 	}
 	// roles: host-table probe = callee of MatchRequest returning ([]rules.Rule, bool); insert = method of DNSEngine taking *HostRule
 	var probe, insert, poolGet *ssa.Function
-	probeFiles := false // the probe appends to the result's family lists itself
+	probeFiles := false     // the probe appends to the result's family lists itself
 	hostIdx, resIdx := 1, 2 // parameter positions (receiver = 0) of the hostname and, for a filing probe, of the result
 	listProbe := func(cal *ssa.Function) bool {
 		r := cal.Signature.Results()
